@@ -61,6 +61,19 @@ theorem C05_no_verification_override :
       s.2.2 ∈ ["InsecureSkipVerify", "ClientAuth", "RootCAs", "ClientCAs", "ServerName"] := by
   rw [C05_verification_field_inventory]; decide
 
+/-- **no session-resumption state**: no site in non-test code gives a `tls.Config` state that lets crypto/tls skip
+    the certificate exchange on a later connection - a `ClientSessionCache` that outlives the config (package-level,
+    a field of the configuration object, …), fixed or shared session-ticket keys, ticket (un)wrapping callbacks.  The
+    only tolerated shapes are a cache created by `tls.NewLRUClientSessionCache` for that one config inside a function
+    (it dies with the config, which serves one connection), `nil`, and switching tickets off.  Hence the configs the model hands to crypto/tls carry
+    no cache (`genFacts.sessionCache = none`), which is what `C05_history_independent` rests on. -/
+theorem C05_session_state_inventory :
+    (∀ s ∈ SA.Gen.tlsSessionStateSites,
+      (s.2.2.1 = "ClientSessionCache" ∧ (s.2.2.2 = "percall" ∨ s.2.2.2 = "nil")) ∨
+      (s.2.2.1 = "SessionTicketsDisabled" ∧ s.2.2.2 = "true")) ∧
+    SA.Gen.clientSessionCacheShared = false ∧ genFacts.sessionCache = none := by
+  decide
+
 /-- the harness PKI's validity-boundary classes under the reference oracle: a certificate outside
     its validity period at the moment of use (expired 24 h / 60 s / 1 s ago, valid only from 120 s on)
     is refused by a verifying client whatever the carrier, and its holder is not admitted by a server
@@ -622,34 +635,37 @@ theorem C05_udp_admits_same_secret (keyLenS keyLenC : Nat) (keyOf : List Nat →
     `runHist` threads the manager's state through the attempts; whether that state can carry
     anything is the regenerated fact SA.Gen.getTlsConfigFreshPerCall. -/
 
-/-- **history independence**: whatever was attempted before (other hosts, other kinds, failed or
-    established, from any state of the manager), what attempt `i` hands to crypto/tls and whether it
-    is established are those of the attempt made alone — a function of the client options and of
-    upstream `i` only.  Holds for the fail-over walk and for connect / disconnect / connect. -/
-theorem C05_history_independent (X : X509) (co : Opts) (failover : Bool) (as : List Attempt) (m : Mgr)
+/-- **history independence**: whatever was attempted before by this process (other hosts, other kinds, the SAME
+    server endpoint under another configuration - another CA, another or no client certificate, verification off -,
+    failed or established, through the one configuration object or through an object of its own, from any state of
+    the object and whatever session tickets crypto/tls holds), what attempt `i` hands to crypto/tls and whether it
+    is established are those of the attempt made alone — a function of the client options IN FORCE FOR THAT ATTEMPT
+    and of upstream `i` only.  Holds for the fail-over walk and for connect / disconnect / connect.  Rests on two
+    regenerated facts: every GetTlsConfig call builds a new object, and no session cache outlives a config. -/
+theorem C05_history_independent (X : X509) (failover : Bool) (ss : List Step) (m : Mgr) (ts : List Ticket)
     (i : Nat) (out : Outcome)
-    (h : (runHist X genFacts SA.Gen.getTlsConfigFreshPerCall co failover as m)[i]? = some (some out)) :
-    ∃ a, as[i]? = some a ∧ out = alone X genFacts co a := by
+    (h : (runHist X genFacts SA.Gen.getTlsConfigFreshPerCall failover ss m ts)[i]? = some (some out)) :
+    ∃ s, ss[i]? = some s ∧ out = alone X genFacts s.co s.att := by
   have hf : SA.Gen.getTlsConfigFreshPerCall = true := by decide
   rw [hf] at h
-  exact runHist_fresh X genFacts co failover as m i out h
+  exact runHist_fresh X genFacts C05_session_state_inventory.2.2 failover ss m ts i out h
 
 /-- without fail-over every attempt of the history is made -/
-theorem C05_history_seq (X : X509) (co : Opts) (as : List Attempt) (m : Mgr) :
-    runHist X genFacts SA.Gen.getTlsConfigFreshPerCall co false as m = as.map (fun a => some (alone X genFacts co a)) := by
+theorem C05_history_seq (X : X509) (ss : List Step) (m : Mgr) (ts : List Ticket) :
+    runHist X genFacts SA.Gen.getTlsConfigFreshPerCall false ss m ts = ss.map (fun s => some (alone X genFacts s.co s.att)) := by
   have hf : SA.Gen.getTlsConfigFreshPerCall = true := by decide
   rw [hf]
-  exact runHist_seq_fresh X genFacts co as m
+  exact runHist_seq_fresh X genFacts C05_session_state_inventory.2.2 ss m ts
 
 /-- the config an attempt hands to crypto/tls, for a verifying kind with a well-formed `h:p`:
     it names `h` and skips verification exactly when the option says so — at every position of
     every history -/
-theorem C05_history_config (X : X509) (co : Opts) (failover : Bool) (as : List Attempt) (m : Mgr)
-    (i : Nat) (out : Outcome) (a : Attempt) (c : TlsCfg) (h p : Name) (hw : WfHostPort h p)
-    (hr : (runHist X genFacts SA.Gen.getTlsConfigFreshPerCall co failover as m)[i]? = some (some out))
-    (ha : as[i]? = some a) (hk : a.kind ≠ .stdioTls) (hhp : a.hostport = h ++ ':' :: p) (hc : out.cfg = some c) :
+theorem C05_history_config (X : X509) (failover : Bool) (ss : List Step) (m : Mgr) (ts : List Ticket)
+    (i : Nat) (out : Outcome) (co : Opts) (nm : Bool) (a : Attempt) (c : TlsCfg) (h p : Name) (hw : WfHostPort h p)
+    (hr : (runHist X genFacts SA.Gen.getTlsConfigFreshPerCall failover ss m ts)[i]? = some (some out))
+    (ha : ss[i]? = some ⟨co, nm, a⟩) (hk : a.kind ≠ .stdioTls) (hhp : a.hostport = h ++ ':' :: p) (hc : out.cfg = some c) :
     effName a.kind a.hostport a.resolved c = h ∧ c.insecureSkipVerify = co.flag ∧ c.rootCAs = caPool co := by
-  obtain ⟨a', ha', hout⟩ := C05_history_independent X co failover as m i out hr
+  obtain ⟨a', ha', hout⟩ := C05_history_independent X failover ss m ts i out hr
   rw [ha] at ha'
   cases ha'
   subst hout
@@ -679,15 +695,15 @@ theorem C05_history_config (X : X509) (co : Opts) (failover : Bool) (as : List A
 /-- **soundness per attempt**: at any position of any history through one manager, with
     verification on, a session is established only with a server whose certificate chains to the
     configured CA, is valid, and matches the host name of THIS upstream -/
-theorem C05_history_auth_sound (X : X509) (co : Opts) (failover : Bool) (as : List Attempt) (m : Mgr)
-    (i : Nat) (out : Outcome) (a : Attempt) (h p : Name) (hw : WfHostPort h p)
-    (hr : (runHist X genFacts SA.Gen.getTlsConfigFreshPerCall co failover as m)[i]? = some (some out))
-    (ha : as[i]? = some a) (hk : a.kind ≠ .stdioTls) (hhp : a.hostport = h ++ ':' :: p)
+theorem C05_history_auth_sound (X : X509) (failover : Bool) (ss : List Step) (m : Mgr) (ts : List Ticket)
+    (i : Nat) (out : Outcome) (co : Opts) (nm : Bool) (a : Attempt) (h p : Name) (hw : WfHostPort h p)
+    (hr : (runHist X genFacts SA.Gen.getTlsConfigFreshPerCall failover ss m ts)[i]? = some (some out))
+    (ha : ss[i]? = some ⟨co, nm, a⟩) (hk : a.kind ≠ .stdioTls) (hhp : a.hostport = h ++ ':' :: p)
     (hins : co.flag = false) (hest : out.est = true) :
     a.up = true ∧
     ∃ scfg peer, serverGetTlsConfig SA.Gen.serverAuthGuardErrNil a.so = .ok scfg ∧ scfg.certs.head? = some peer ∧
       X.chains (caPool co) peer = true ∧ X.validNow peer = true ∧ X.matchesName h peer = true := by
-  obtain ⟨a', ha', hout⟩ := C05_history_independent X co failover as m i out hr
+  obtain ⟨a', ha', hout⟩ := C05_history_independent X failover ss m ts i out hr
   rw [ha] at ha'
   cases ha'
   rw [hout, alone_est, Bool.and_eq_true, hhp] at hest
@@ -696,10 +712,10 @@ theorem C05_history_auth_sound (X : X509) (co : Opts) (failover : Bool) (as : Li
 /-- **completeness per attempt**: every attempt that is made — at any position of any history — to
     a reachable server whose certificate is acceptable for THIS upstream's host name (and whose own
     requirement on the client is met) is established -/
-theorem C05_history_auth_complete (X : X509) (co : Opts) (failover : Bool) (as : List Attempt) (m : Mgr)
-    (i : Nat) (out : Outcome) (a : Attempt) (h p : Name) (hw : WfHostPort h p)
-    (hr : (runHist X genFacts SA.Gen.getTlsConfigFreshPerCall co failover as m)[i]? = some (some out))
-    (ha : as[i]? = some a) (hk : a.kind ≠ .stdioTls) (hhp : a.hostport = h ++ ':' :: p) (hup : a.up = true)
+theorem C05_history_auth_complete (X : X509) (failover : Bool) (ss : List Step) (m : Mgr) (ts : List Ticket)
+    (i : Nat) (out : Outcome) (co : Opts) (nm : Bool) (a : Attempt) (h p : Name) (hw : WfHostPort h p)
+    (hr : (runHist X genFacts SA.Gen.getTlsConfigFreshPerCall failover ss m ts)[i]? = some (some out))
+    (ha : ss[i]? = some ⟨co, nm, a⟩) (hk : a.kind ≠ .stdioTls) (hhp : a.hostport = h ++ ':' :: p) (hup : a.up = true)
     (ccfg scfg : TlsCfg) (peer : String)
     (hc : clientGetTlsConfig co = .ok ccfg) (hs : configGetTlsConfig a.so = .ok scfg)
     (hpeer : scfg.certs.head? = some peer)
@@ -708,7 +724,7 @@ theorem C05_history_auth_complete (X : X509) (co : Opts) (failover : Bool) (as :
     (hcli : a.so.flag = false ∨
       ∃ c, ccfg.certs.head? = some c ∧ X.chains (caPool a.so) c = true ∧ X.validNow c = true) :
     out.est = true := by
-  obtain ⟨a', ha', hout⟩ := C05_history_independent X co failover as m i out hr
+  obtain ⟨a', ha', hout⟩ := C05_history_independent X failover ss m ts i out hr
   rw [ha] at ha'
   cases ha'
   rw [hout, alone_est, hup, Bool.true_and, hhp]
@@ -770,7 +786,7 @@ def sharedWitnessList (backupCert : String) : List Attempt :=
 /-- the name of the first (failed) attempt sticks: a CA-signed certificate for 127.0.0.1 only is
     accepted for the upstream named `localhost` … -/
 theorem C05_witness_shared_config_accepts_other_host :
-    (runHist refX509 genFacts false { ca := ⟨none, some (.cas ["A"])⟩ } true (sharedWitnessList "iponly") none).map
+    (runHist refX509 genFacts false true (stepsOf { ca := ⟨none, some (.cas ["A"])⟩ } (sharedWitnessList "iponly")) none []).map
         (Option.map (fun r => (r.est, r.cfg.map (·.serverName)))) =
       [some (false, some "127.0.0.1".toList), some (true, some "127.0.0.1".toList)] ∧
     (alone refX509 genFacts { ca := ⟨none, some (.cas ["A"])⟩ } (sharedWitnessBackup "iponly")).est = false := by
@@ -778,18 +794,75 @@ theorem C05_witness_shared_config_accepts_other_host :
 
 /-- … and the server properly certified for `localhost` is refused -/
 theorem C05_witness_shared_config_refuses_certified :
-    (runHist refX509 genFacts false { ca := ⟨none, some (.cas ["A"])⟩ } true (sharedWitnessList "nameonly") none).map
+    (runHist refX509 genFacts false true (stepsOf { ca := ⟨none, some (.cas ["A"])⟩ } (sharedWitnessList "nameonly")) none []).map
         (Option.map (·.est)) = [some false, some false] ∧
     (alone refX509 genFacts { ca := ⟨none, some (.cas ["A"])⟩ } (sharedWitnessBackup "nameonly")).est = true := by
   decide
 
 /-- a stdin+tls attempt switches verification off for every later attempt: an untrusted server is accepted -/
 theorem C05_witness_shared_config_stdio_leaks :
-    (runHist refX509 genFacts false { ca := ⟨none, some (.cas ["A"])⟩ } false
+    (runHist refX509 genFacts false false (stepsOf { ca := ⟨none, some (.cas ["A"])⟩ }
         [{ kind := .stdioTls, hostport := [], resolved := [], up := true, so := leafSrc "good" {} },
-         { kind := .startTls, hostport := "server.test:4443".toList, resolved := [], up := true, so := leafSrc "untrusted" {} }] none).map
+         { kind := .startTls, hostport := "server.test:4443".toList, resolved := [], up := true, so := leafSrc "untrusted" {} }]) none []).map
         (Option.map (fun r => (r.est, r.cfg.map (·.insecureSkipVerify)))) =
       [some (true, some true), some (true, some true)] := by
+  decide
+
+/-! ### what a session cache that outlives the config would do (the other value of SA.Gen.clientSessionCacheShared;
+    reproduced on the real code with `conf.ClientSessionCache = <package-level cache>` in ClientConfig.GetTlsConfig,
+    notes/C05.md round 6) -/
+
+/-- the facts of the code, except that client configs carry one process-wide session cache -/
+def cacheFacts : Facts := { genFacts with sessionCache := some 0 }
+
+/-- tcp+tls://localhost reaching the server instance `inst` (certificate `good`, CA A, client certificate required or not) -/
+def sameEndpoint (req : Bool) (inst : String) (k : Kind := .socketTls) : Attempt :=
+  { kind := k, hostport := "localhost:4443".toList, resolved := "127.0.0.1:4443".toList, up := true,
+    so := leafSrc "good" { ca := caSrcOf "A", flag := req }, inst := inst }
+
+/-- (a) the trusted CA is replaced between connect and reconnect: the client configured with CA B only still
+    completes a session with the server certified by CA A - alone it is refused; without such a cache it is refused
+    in the history as well -/
+theorem C05_witness_session_cache_replaced_ca :
+    (runHist refX509 cacheFacts true false
+        [⟨{ ca := caSrcOf "A" }, false, sameEndpoint false "s"⟩, ⟨{ ca := caSrcOf "B" }, false, sameEndpoint false "s"⟩] none []).map
+        (Option.map (·.est)) = [some true, some true] ∧
+    (alone refX509 cacheFacts { ca := caSrcOf "B" } (sameEndpoint false "s")).est = false ∧
+    (runHist refX509 { genFacts with sessionCache := none } true false
+        [⟨{ ca := caSrcOf "A" }, false, sameEndpoint false "s"⟩, ⟨{ ca := caSrcOf "B" }, false, sameEndpoint false "s"⟩] none []).map
+        (Option.map (·.est)) = [some true, some false] := by
+  decide
+
+/-- (b) a second configuration object of the same process, configured with a foreign CA, gets in as well -/
+theorem C05_witness_session_cache_second_object :
+    (runHist refX509 cacheFacts true false
+        [⟨{ ca := caSrcOf "A" }, true, sameEndpoint false "s"⟩, ⟨{ ca := caSrcOf "B" }, true, sameEndpoint false "s"⟩] none []).map
+        (Option.map (·.est)) = [some true, some true] := by
+  decide
+
+/-- (c) a client without a certificate is admitted by a server that requires one, once a client of the same process
+    holding a valid certificate was admitted -/
+theorem C05_witness_session_cache_no_client_cert :
+    (runHist refX509 cacheFacts true false
+        [⟨leafSrc "cgood" { ca := caSrcOf "A" }, false, sameEndpoint true "s"⟩, ⟨{ ca := caSrcOf "A" }, false, sameEndpoint true "s"⟩] none []).map
+        (Option.map (·.est)) = [some true, some true] ∧
+    (alone refX509 cacheFacts { ca := caSrcOf "A" } (sameEndpoint true "s")).est = false := by
+  decide
+
+/-- … while the first connection of any configuration, a restarted server (new ticket keys), a StartTLS carrier
+    (server config per connection) and the order insecure → verifying are decided afresh even with such a cache -/
+theorem C05_witness_session_cache_limits :
+    (runHist refX509 cacheFacts true false [⟨{ ca := caSrcOf "B" }, false, sameEndpoint false "s"⟩] none []).map
+        (Option.map (·.est)) = [some false] ∧
+    (runHist refX509 cacheFacts true false
+        [⟨{ ca := caSrcOf "A" }, false, sameEndpoint false "s"⟩, ⟨{ ca := caSrcOf "B" }, false, sameEndpoint false "s'"⟩] none []).map
+        (Option.map (·.est)) = [some true, some false] ∧
+    (runHist refX509 cacheFacts true false
+        [⟨{ ca := caSrcOf "A" }, false, sameEndpoint false "s" .startTls⟩, ⟨{ ca := caSrcOf "B" }, false, sameEndpoint false "s" .startTls⟩] none []).map
+        (Option.map (·.est)) = [some true, some false] ∧
+    (runHist refX509 cacheFacts true false
+        [⟨{ ca := caSrcOf "B", flag := true }, false, sameEndpoint false "s"⟩, ⟨{ ca := caSrcOf "B" }, false, sameEndpoint false "s"⟩] none []).map
+        (Option.map (·.est)) = [some true, some false] := by
   decide
 
 /-! ## non-vacuity -/
@@ -825,15 +898,22 @@ example : established refX509 genFacts .startTls "server.test:4443".toList []
   decide
 -- histories: a fail-over walk that reaches the properly certified backup, one that refuses the
 -- backup certified for another host, and a stdin+tls attempt that leaves a later verifying attempt alone
-example : (runHist refX509 genFacts SA.Gen.getTlsConfigFreshPerCall { ca := ⟨none, some (.cas ["A"])⟩ } true
-    (sharedWitnessList "nameonly") none).map (Option.map (·.est)) = [some false, some true] := by decide
-example : (runHist refX509 genFacts SA.Gen.getTlsConfigFreshPerCall { ca := ⟨none, some (.cas ["A"])⟩ } true
-    (sharedWitnessList "iponly") none).map (Option.map (·.est)) = [some false, some false] := by decide
-example : (runHist refX509 genFacts SA.Gen.getTlsConfigFreshPerCall { ca := ⟨none, some (.cas ["A"])⟩ } true
-    ((sharedWitnessList "good").reverse) none).map (Option.map (·.est)) = [some true, none] := by decide
-example : (runHist refX509 genFacts SA.Gen.getTlsConfigFreshPerCall { ca := ⟨none, some (.cas ["A"])⟩ } false
+example : (runHist refX509 genFacts SA.Gen.getTlsConfigFreshPerCall true
+    (stepsOf { ca := ⟨none, some (.cas ["A"])⟩ } (sharedWitnessList "nameonly")) none []).map (Option.map (·.est)) = [some false, some true] := by decide
+example : (runHist refX509 genFacts SA.Gen.getTlsConfigFreshPerCall true
+    (stepsOf { ca := ⟨none, some (.cas ["A"])⟩ } (sharedWitnessList "iponly")) none []).map (Option.map (·.est)) = [some false, some false] := by decide
+example : (runHist refX509 genFacts SA.Gen.getTlsConfigFreshPerCall true
+    (stepsOf { ca := ⟨none, some (.cas ["A"])⟩ } ((sharedWitnessList "good").reverse)) none []).map (Option.map (·.est)) = [some true, none] := by decide
+example : (runHist refX509 genFacts SA.Gen.getTlsConfigFreshPerCall false (stepsOf { ca := ⟨none, some (.cas ["A"])⟩ }
     [{ kind := .stdioTls, hostport := [], resolved := [], up := true, so := leafSrc "good" {} },
-     { kind := .startTls, hostport := "server.test:4443".toList, resolved := [], up := true, so := leafSrc "untrusted" {} }] none).map
+     { kind := .startTls, hostport := "server.test:4443".toList, resolved := [], up := true, so := leafSrc "untrusted" {} }]) none []).map
+    (Option.map (·.est)) = [some true, some false] := by decide
+-- the same endpoint, configuration changed between the attempts (code's facts): CA A then B then A; certificate then none
+example : (runHist refX509 genFacts SA.Gen.getTlsConfigFreshPerCall false
+    [⟨{ ca := caSrcOf "A" }, false, sameEndpoint false "s"⟩, ⟨{ ca := caSrcOf "B" }, true, sameEndpoint false "s"⟩,
+     ⟨{ ca := caSrcOf "A" }, false, sameEndpoint false "s"⟩] none []).map (Option.map (·.est)) = [some true, some false, some true] := by decide
+example : (runHist refX509 genFacts SA.Gen.getTlsConfigFreshPerCall false
+    [⟨leafSrc "cgood" { ca := caSrcOf "A" }, false, sameEndpoint true "s"⟩, ⟨{ ca := caSrcOf "A" }, false, sameEndpoint true "s"⟩] none []).map
     (Option.map (·.est)) = [some true, some false] := by decide
 -- IPv6 literal in brackets
 example : startTlsName SA.Gen.startTlsStripsPort "[2001:db8::1]:8443".toList = "2001:db8::1".toList := by decide
@@ -878,6 +958,11 @@ end SA.TlsConfig
 #print axioms SA.TlsConfig.C05_witness_shared_config_refuses_certified
 #print axioms SA.TlsConfig.C05_witness_shared_config_stdio_leaks
 #print axioms SA.TlsConfig.C05_verification_field_inventory
+#print axioms SA.TlsConfig.C05_session_state_inventory
+#print axioms SA.TlsConfig.C05_witness_session_cache_replaced_ca
+#print axioms SA.TlsConfig.C05_witness_session_cache_second_object
+#print axioms SA.TlsConfig.C05_witness_session_cache_no_client_cert
+#print axioms SA.TlsConfig.C05_witness_session_cache_limits
 #print axioms SA.TlsConfig.C05_no_verification_override
 #print axioms SA.TlsConfig.C05_validity_boundary_table
 #print axioms SA.TlsConfig.C05_auth_sound_any_host
